@@ -124,6 +124,7 @@ func fidelityMain(args []string) {
 		// file): compare on the plain configuration
 		s.FileChunk = 0
 		s.StdoutTTY = false
+		s.Env = nil
 		for pi := range s.Procs {
 			if s.Procs[pi].Stdin != nil {
 				st := *s.Procs[pi].Stdin
